@@ -66,7 +66,7 @@ def J(name, seed='fresh', cfg=None, budget=None, seed_kw=None, max_states=None, 
 
 
 def run_cluster_check(prop, tier, seed, specs, clauses, technique, assumptions, job_filter=None,
-                      extra_monitors=(), default_cap=None, extra_results=None):
+                      extra_monitors=(), default_cap=None, extra_results=None, extra_replay=None):
     rep = core.Report(prop, tier, seed, technique, assumptions)
     table = {}
     jobs = []
@@ -82,7 +82,7 @@ def run_cluster_check(prop, tier, seed, specs, clauses, technique, assumptions, 
         if job_filter and job_filter not in s['name']:
             continue
         jobs.append((cluster_job, s))
-    rep.replay_fn = lambda name, trace: replay_cluster(table[name], trace)
+    rep.replay_fn = lambda name, trace: (replay_cluster(table[name], trace) if name in table else extra_replay(name, trace))
     # biggest first for better packing
     rep.add(core.run_jobs(jobs))
     if extra_results:
